@@ -188,3 +188,15 @@ func CanonHeader(h http.Header, names ...string) string {
 	}
 	return s
 }
+
+// HTTPTransport is the target of rewriter rule R10: code under test that builds its own
+// *http.Transport (`Transport: &http.Transport{...}` in a struct literal) gets the transport the
+// scenario registered for this run (World.DefaultTransport, normally a *Net) instead of one that
+// would dial real sockets. Outside a simulated world, or when nothing is registered, the original
+// transport is returned.
+func HTTPTransport(orig http.RoundTripper) http.RoundTripper {
+	if w := Cur(); w != nil && w.DefaultTransport != nil {
+		return w.DefaultTransport
+	}
+	return orig
+}
